@@ -361,7 +361,7 @@ def build_stack(rng, counter):
     return lines, LayeredMapping(*real_layers), MLM(model_layers), supplied
 
 
-LM_OPS = ["set", "set", "del", "get", "len", "iter", "contains", "pop", "setdefault", "update", "with_layers", "gwln", "delpriv"]
+LM_OPS = ["set", "set", "del", "get", "len", "iter", "contains", "pop", "setdefault", "update", "with_layers", "gwln", "delpriv", "owner"]
 
 LM_CHECK_SRC = '''def check(m, view):
     keys = list(m)
@@ -520,8 +520,19 @@ def run_lm_sequence(b, counts, rng, ops, counter):
             real.update(upd)
             model.private.update(upd)
             lines.append(f"m.update({upd!r}); check(m, {model.view()!r})")
+        elif op == "owner":
+            # the OWNER of a supplied layer (not the LayeredMapping) writes to it -- typically a layer that was still
+            # empty when it was handed over; the mapping is a live view, so the new key must show up
+            if not supplied:
+                continue
+            empties = [j for j, (d0, _, _) in enumerate(supplied) if len(d0) == 0]
+            j = rng.choice(empties) if empties and rng.random() < 0.7 else rng.randrange(len(supplied))
+            d0, _, nm0 = supplied[j]
+            d0[k] = v
+            supplied[j] = (d0, dict(d0), nm0)
+            lines.append(f"{nm0}[{k!r}] = {v}; check(m, {model.view()!r})")
         elif op == "with_layers":
-            d = {kk: counter[0] + i for i, kk in enumerate(rng.sample(LKEYS, rng.randint(1, 2)))}
+            d = {kk: counter[0] + i for i, kk in enumerate(rng.sample(LKEYS, rng.randint(0, 2)))}  # possibly empty
             counter[0] += 2
             prepend, inplace = rng.random() < 0.5, rng.random() < 0.5
             nm = f"e{len(supplied)}"
@@ -758,7 +769,7 @@ def run_bounded(ctx):
             _g.guard(rec(b), check_structured, b, counts, rng, m)
     with ctx.bounded(
         "layered-mapping-histories",
-        rule="every operation sequence of length <= 2 (quick) / 3 (thorough) over 13 operations, and seeded random sequences of "
+        rule="every operation sequence of length <= 2 (quick) / 3 (thorough) over 14 operations (incl. the owner of a supplied, possibly still empty, layer writing to it; with_layers with an empty layer), and seeded random sequences of "
              "length <= 8, each on a fresh random stack of <= 4 layers (dict, named/unnamed nested LayeredMapping, None) over keys "
              "x,y,z,w; after every step: length/iteration/lookup/get vs the top-first merge model, supplied dicts unchanged; "
              "non-trivial = overlapping keys or >= 2 layers",
